@@ -20,6 +20,7 @@ class _Parser:
 	def __init__(self, source):
 		self.source = source
 		self.pos = 0
+		self.groups = 0
 
 	def peek(self):
 		return self.source[self.pos] if self.pos < len(self.source) else None
@@ -68,7 +69,8 @@ class _Parser:
 			else:
 				return node
 			if '?' == self.peek():
-				self.take()  # lazy: same language
+				self.take()  # lazy: same language (only the capturing matcher looks at the marker)
+				node = ('lazy', node)
 			elif '+' == self.peek():
 				raise Unsupported('possessive quantifier')
 
@@ -98,9 +100,11 @@ class _Parser:
 					return ('backref', name)
 				else:
 					raise Unsupported(f'group extension (?{kind}')
+			self.groups += 1
+			index = self.groups
 			node = self.alt()
 			self.expect(')')
-			return ('group', name, node)
+			return ('group', name, node, index)
 		if '[' == char:
 			return self.char_class()
 		if '.' == char:
@@ -178,7 +182,7 @@ def walk(node):
 	if kind in ('seq', 'alt'):
 		for child in node[1]:
 			yield from walk(child)
-	elif kind in ('star', 'plus', 'opt', 'rep'):
+	elif kind in ('star', 'plus', 'opt', 'rep', 'lazy'):
 		yield from walk(node[1])
 	elif 'group' == kind:
 		yield from walk(node[2])
@@ -225,6 +229,8 @@ def witnesses(node, groups=None):
 	"""A few short strings of the pattern's language (anchors and boundaries contribute the empty string), best first."""
 	groups = {} if groups is None else groups
 	kind = node[0]
+	if 'lazy' == kind:
+		return witnesses(node[1], groups)
 	if 'lit' == kind:
 		return [node[1]]
 	if 'any' == kind:
@@ -305,6 +311,8 @@ def lean_item(item):
 
 def lean_re(node):
 	kind = node[0]
+	if 'lazy' == kind:
+		return lean_re(node[1])
 	if 'lit' == kind:
 		return f'.lit {lean_char(node[1])}'
 	if 'any' == kind:
@@ -345,6 +353,57 @@ def lean_re(node):
 		return f'.group ({lean_re(node[2])})' if node[1] is not None else lean_re(node[2])
 	if 'backref' == kind:
 		return '.backref'
+	raise Unsupported(kind)
+
+
+def lean_cre(node, lazy=False):
+	"""Lean term of type Capture.CRE: numbered groups, greedy / lazy repetition (`re`'s order of alternatives)."""
+	kind = node[0]
+	if 'lazy' == kind:
+		return lean_cre(node[1], True)
+	if 'lit' == kind:
+		return f'.lit {lean_char(node[1])}'
+	if 'any' == kind:
+		return '.any'
+	if 'cls' == kind:
+		return f'.cls {"true" if node[1] else "false"} [{", ".join(lean_item(item) for item in node[2])}]'
+	if kind in ('bol', 'eol', 'wordb'):
+		return '.' + kind
+	if kind in ('seq', 'alt'):
+		children = node[1]
+		if not children:
+			return '.eps'
+		text = f'({lean_cre(children[-1])})'
+		for child in reversed(children[:-1]):
+			text = f'(.{kind} ({lean_cre(child)}) {text})'
+		return text[1:-1] if text.startswith('(') else text
+	greedy = 'false' if lazy else 'true'
+	if 'star' == kind:
+		return f'.star {greedy} ({lean_cre(node[1])})'
+	if 'plus' == kind:
+		return f'.seq ({lean_cre(node[1])}) (.star {greedy} ({lean_cre(node[1])}))'
+
+	def optional(inner):
+		return f'.alt .eps ({inner})' if lazy else f'.alt ({inner}) .eps'
+
+	if 'opt' == kind:
+		return optional(lean_cre(node[1]))
+	if 'rep' == kind:
+		inner = lean_cre(node[1])
+		low, high = node[2], node[3]
+		parts = [f'({inner})'] * low
+		if high is None:
+			parts.append(f'(.star {greedy} ({inner}))')
+		else:
+			parts.extend([f'({optional(inner)})'] * (high - low))
+		if not parts:
+			return '.eps'
+		text = parts[-1]
+		for part in reversed(parts[:-1]):
+			text = f'(.seq {part} {text})'
+		return text[1:-1] if text.startswith('(') else text
+	if 'group' == kind:
+		return f'.group {node[3]} ({lean_cre(node[2])})'
 	raise Unsupported(kind)
 
 
